@@ -79,6 +79,15 @@ pub fn pool(seed: u64) -> Vec<Call> {
             cells.push(id);
         }
     }
+    // coordinate twins, adjacent in the pool: (a, b) and (b, a), equal and opposite coordinates, doubled pairs
+    for k in 0..40 {
+        let a = rng.range(-90.0, 90.0);
+        let b = rng.range(-90.0, 90.0);
+        let res = [0, 1, 4, 9, 17][k % 5];
+        for (lon, lat) in [(a, b), (b, a), (a, a), (-a, a), (b, b), (2.0 * a, a), (a / 2.0, b / 2.0)] {
+            v.push(Call::Lookup { lon, lat, res });
+        }
+    }
     // ladders: points that are a cell vertex at EVERY resolution (the poles = two face centres, other face centres,
     // dodecahedron vertices), looked up at all resolutions one after the other
     let mut ladder_points: Vec<(f64, f64)> = vec![(12.3, 90.0), (-119.877, -90.0)];
@@ -170,6 +179,10 @@ pub fn pool(seed: u64) -> Vec<Call> {
         }
     }
     v.push(Call::Res0);
+    // the generic projection with a foreign triangle (public 'for testing'): it must not leave anything behind either
+    for (x, y) in [(0.3, 0.3), (0.1, 0.6), (0.25, 0.5), (0.5, 0.2)] {
+        v.push(Call::GenericInverse { x, y });
+    }
     v.push(Call::U64ToHex(0x1234_5678_9abc_def0));
     v.push(Call::HexToU64("ff00".to_string()));
     v
@@ -244,8 +257,17 @@ pub fn first_touch(seed: u64, round: u64) {
             std::thread::spawn(move || {
                 std::panic::set_hook(Box::new(|_| {}));
                 let mut rng = Rng::stream(seed, "C13.first", round * 64 + t as u64);
-                let mine: Vec<usize> = (0..6).map(|_| rng.usize(calls.len())).collect();
+                let mut mine: Vec<usize> = (0..6).map(|_| rng.usize(calls.len())).collect();
+                if round % 2 == 1 && t < 2 {
+                    // the process's very first projection is the generic one with a foreign triangle
+                    if let Some(k) = calls.iter().position(|c| matches!(c.1, Call::GenericInverse { .. })) {
+                        mine[0] = k;
+                    }
+                }
                 barrier.wait();
+                if round % 2 == 1 && t >= 2 {
+                    std::thread::sleep(std::time::Duration::from_millis(2));
+                }
                 let mut res = Vec::new();
                 for k in mine {
                     let o = calls[k].1.exec();
